@@ -122,7 +122,7 @@ def shard(ctx: Ctx):
     quick = ctx.tier == 'quick'
     sizes = gen.QUICK if quick else gen.THOROUGH
     sizes = gen.Sizes(tables=sizes.tables, columns=sizes.columns, indexes=1, enums=1, items=2, refs=8, groups=0, stickies=0, props=1)
-    n = 110 if quick else 4000
+    n = 110 if quick else 1200
     hyp_run(ctx, 'parsed+built', C.cases(C.parse_features(), sizes, min_tables=1),
             lambda c: evaluate(c[0], c[1], ctx, 'parse-domain'), n)
     hyp_run(ctx, 'built-only', C.cases(C.built_features(), sizes, with_style=False, min_tables=1),
